@@ -146,6 +146,19 @@ where
     /// ```
     pub fn find(&self, prefix: P) -> Option<TrieView<'a, P, T>> {
         let mut idx = self.loc.idx();
+        // `prefix` may not lie below the first node of this view.
+        let node_p = &self.table[idx].prefix;
+        if !node_p.contains(&prefix) {
+            return if prefix.contains(node_p) {
+                // `prefix` covers that node, and thus all elements of this view.
+                Some(Self {
+                    table: self.table,
+                    loc: ViewLoc::Virtual(prefix, idx),
+                })
+            } else {
+                None
+            };
+        }
         loop {
             match self.table.get_direction_for_insert(idx, &prefix) {
                 DirectionForInsert::Enter { next, .. } => {
@@ -260,6 +273,10 @@ where
     /// ```
     pub fn find_lpm(&self, prefix: &P) -> Option<TrieView<'a, P, T>> {
         let mut idx = self.loc.idx();
+        // all elements of this view lie below its first node.
+        if !self.table[idx].prefix.contains(prefix) {
+            return None;
+        }
         let mut best_match = None;
         loop {
             if self.table[idx].value.is_some() {
@@ -694,6 +711,16 @@ where
         // is still not covered by any other view), while dropping `self`.
 
         let mut idx = self.loc.idx();
+        // `prefix` may not lie below the first node of this view.
+        let node_p = &self.table[idx].prefix;
+        if !node_p.contains(&prefix) {
+            return if prefix.contains(node_p) {
+                // `prefix` covers that node, and thus all elements of this view.
+                unsafe { Ok(Self::new(self.table, ViewLoc::Virtual(prefix, idx))) }
+            } else {
+                Err(self)
+            };
+        }
         loop {
             match self.table.get_direction_for_insert(idx, &prefix) {
                 DirectionForInsert::Enter { next, .. } => {
@@ -804,6 +831,10 @@ where
     /// ```
     pub fn find_lpm(self, prefix: &P) -> Result<Self, Self> {
         let mut idx = self.loc.idx();
+        // all elements of this view lie below its first node.
+        if !self.table[idx].prefix.contains(prefix) {
+            return Err(self);
+        }
         let mut best_match = None;
         loop {
             if self.table[idx].value.is_some() {
